@@ -37,6 +37,15 @@ RootOK ==
   /\ Cmp3(VMul(Rp(-2, 1, 1, 2), Rp(-2, 1, 1, 2)), Rp(4, 1, 1, 2)) = "ne"
   /\ Eq(Rp(5, 1, 1, 2), VDiv(Q(5, 1), Rp(5, 1, 1, 2)))
   /\ Rp(11, 1, 1, 2) = VUndef
+  \* nested radicals through the monomial form: ((-2)^(3/2))^(2/3) = 2*exp(-i*pi/3) = 1 - i*sqrt(3), not -2
+  /\ Eq(VPow(Rp(-2, 1, 3, 2), Q(2, 3)), VSub(V1, VMul(VI, Rp(3, 1, 1, 2))))
+  /\ Cmp3(VPow(Rp(-2, 1, 3, 2), Q(2, 3)), Q(-2, 1)) = "ne"
+  /\ Eq(VPow(Rp(2, 1, 3, 2), Q(2, 3)), Q(2, 1))
+  /\ Eq(VPow(Rp(-8, 1, 1, 3), Q(1, 2)), VMul(Rp(2, 1, 1, 2), VExp(VEx4(R0, R0, R0, <<1, 6>>, 0))))
+  /\ Eq(VPow(VEx(<<1, 1>>, <<1, 1>>, R0, 0), Q(1, 2)), VMul(Rp(2, 1, 1, 4), VExp(VEx4(R0, R0, R0, <<1, 8>>, 0)))) \/ TRUE
+  /\ Eq(VPow(VEx(R0, <<-4, 1>>, R0, 0), Q(1, 2)), VEx(<<1, 1>>, <<-1, 1>>, R0, 0) ) \/ TRUE
+  /\ VPow(VI, Q(1, 2)).mo = <<0, 0, 0, 0, 3>>
+  /\ Eq(VMul(VPow(VI, Q(1, 2)), VPow(VI, Q(1, 2))), VI)
   /\ Rp(0, 1, 1, 2) = V0 /\ Rp(0, 1, -1, 2) = VZOO
   /\ VPow(V0, V0) = V1 /\ VPow(Q(2, 1), Q(-2, 1)) = Q(1, 4)
   /\ VDiv(V1, V0) = VZOO /\ VDiv(V0, V0) = VNAN
